@@ -25,6 +25,16 @@ DYNAMIC = ["bit_select", "word_select"]
 NARY = ["cat", "matches", "mux", "array"]
 
 
+def _alias(ir):
+    """['pyint', v] is a bare Python integer operand (reflected operators) and ['array_raw', ...] an
+    ArrayProxy used directly (not value-cast): semantically identical to const / array."""
+    if ir[0] == "pyint":
+        return ["const", ir[1]]
+    if ir[0] == "array_raw":
+        return ["array", ir[1], ir[2]]
+    return ir
+
+
 class IllFormed(Exception):
     """The IR node is outside the legal grammar (generator must avoid / discard it)."""
 
@@ -42,6 +52,7 @@ def const_shape(v):
 
 def ref_shape(ir, env):
     """Documented shape (w, signed) of the expression. env: list of (w, signed) of leaf signals."""
+    ir = _alias(ir)
     op = ir[0]
     if op == "sig":
         return tuple(env[ir[1]])
@@ -173,6 +184,7 @@ def pattern_matches(pat, v, w, s):
 
 def ref_eval(ir, env, vals):
     """Exact integer value of the expression (always within ref_shape)."""
+    ir = _alias(ir)
     op = ir[0]
     if op == "sig":
         return vals[ir[1]]
@@ -293,6 +305,8 @@ def build(ir, sigs):
         return sigs[ir[1]]
     if op == "const":
         return Const(ir[1])
+    if op == "pyint":
+        return ir[1]                 # a bare Python integer (exercises the reflected operators)
     if op == "constsh":
         return Const(ir[1], Shape(ir[2], bool(ir[3])))
     B = lambda x: build(x, sigs)
@@ -341,6 +355,7 @@ def build(ir, sigs):
     if op == "matches": return B(ir[1]).matches(*ir[2])
     if op == "mux": return Mux(B(ir[1]), B(ir[2]), B(ir[3]))
     if op == "array": return Value.cast(Array([B(e) for e in ir[1]])[B(ir[2])])
+    if op == "array_raw": return Array([B(e) for e in ir[1]])[B(ir[2])]     # the proxy itself
     raise IllFormed(f"unknown op {op}")
 
 
@@ -349,6 +364,7 @@ def build(ir, sigs):
 # ----------------------------------------------------------------------------------------------
 
 def children(ir):
+    ir = _alias(ir)
     op = ir[0]
     if op in ("sig", "const", "constsh"):
         return []
@@ -388,6 +404,7 @@ def has_signal(ir):
 
 def fingerprint(ir, env):
     """Structure with constant *values* abstracted, leaf shapes kept."""
+    ir = _alias(ir)
     op = ir[0]
     if op == "sig":
         return ["sig", list(env[ir[1]])]
